@@ -481,13 +481,25 @@ impl StateStore {
 
     /// Create a checkpoint of current state
     pub fn checkpoint(&mut self, name: impl Into<String>) -> StateResult<String> {
-        let checkpoint_id = format!(
-            "checkpoint_{}",
-            SystemTime::now()
-                .duration_since(UNIX_EPOCH)
-                .unwrap()
-                .as_millis()
-        );
+        let millis = SystemTime::now()
+            .duration_since(UNIX_EPOCH)
+            .unwrap()
+            .as_millis();
+        let mut checkpoint_id = format!("checkpoint_{}", millis);
+
+        // Two checkpoints taken within the same millisecond must not share an id:
+        // the second would overwrite the first one's data
+        let mut suffix = 1;
+        while self
+            .checkpoints
+            .read()
+            .unwrap()
+            .iter()
+            .any(|c| c.id == checkpoint_id)
+        {
+            checkpoint_id = format!("checkpoint_{}_{}", millis, suffix);
+            suffix += 1;
+        }
 
         let state = self.state.read().unwrap();
         let snapshot: HashMap<String, Value> = state
